@@ -171,3 +171,133 @@ def snap_leaves(s, path=()):
     if k == 3:
         return dict([((path + ("act",)), ("active", s[1]))] + (list(snap_leaves(s[2], path + ("s",)).items()) if len(s) > 2 else []))
     raise ValueError(s)
+
+
+# ---------------------------------------------------------------------- reference key resolution
+# (the documented semantics of key sources and of the top-down walk, written independently in Python;
+#  used only by the Stage C search)
+W64 = 1 << 64
+
+
+class IterKeys:
+    def __init__(self, items):
+        self.items = list(items)
+
+    def next(self, lk):
+        if not self.items:
+            return "short"
+        return find(self.items.pop(0), lk)
+
+    def fin(self):
+        if self.items:
+            self.items.pop(0)
+            return False
+        return True
+
+
+class PackedKeys:
+    def __init__(self, w):
+        self.w = w
+
+    def next(self, lk):
+        n = S.lk_len(lk)
+        bits = bits_for(n - 1)
+        if bits >= 64:
+            return "short"
+        nw = (self.w << bits) % W64
+        if nw == 0:
+            return "short"
+        v = (self.w >> (63 - bits)) >> 1
+        self.w = nw
+        return v if v < n else "notfound"
+
+    def fin(self):
+        return self.w == 1 << 63
+
+
+class ChainKeys:
+    def __init__(self, a, b):
+        self.a, self.b = a, b
+
+    def next(self, lk):
+        r = self.a.next(lk)
+        return self.b.next(lk) if r == "short" else r
+
+    def fin(self):
+        return self.a.fin() and self.b.fin()
+
+
+def parse_usize(s):
+    if s.startswith("+"):
+        s = s[1:]
+    if not s or any(c not in "0123456789" for c in s):
+        return None
+    v = int(s)
+    return v if v < W64 else None
+
+
+def find(item, lk):
+    kind, v = item
+    n = S.lk_len(lk)
+    if kind == "int":
+        return v if 0 <= v < W64 and v < n else "notfound"
+    if lk[0] == "named":
+        return lk[1].index(v) if v in lk[1] else "notfound"
+    i = parse_usize(v)
+    return i if i is not None and i < n else "notfound"
+
+
+def json_split(s):
+    out = []
+    while True:
+        for op, close, brk in ((".'", "'", False), (".", None, True), ("['", "']", False), ("[", "]", False)):
+            if s.startswith(op):
+                rest = s[len(op):]
+                if brk:
+                    ends = [i for i in (rest.find("."), rest.find("[")) if i >= 0]
+                    e = min(ends) if ends else len(rest)
+                    out.append(rest[:e]); s = rest[e:]
+                else:
+                    e = rest.find(close)
+                    if e < 0:
+                        return out
+                    out.append(rest[:e]); s = rest[e + len(close):]
+                break
+        else:
+            return out
+
+
+def make_keys(spec):
+    k = spec["k"]
+    if k == "ints":
+        return IterKeys([("int", int(v)) for v in spec["v"]])
+    if k == "names":
+        return IterKeys([("str", v) for v in spec["v"]])
+    if k == "path":
+        return IterKeys([("str", v) for v in spec["s"].split(chr(spec["sep"]))[1:]])
+    if k == "json":
+        return IterKeys([("str", v) for v in json_split(spec["s"])])
+    if k == "packed":
+        return PackedKeys(int(spec["w"]))
+    if k == "chain":
+        return ChainKeys(make_keys(spec["a"]), make_keys(spec["b"]))
+    raise ValueError(k)
+
+
+def ref_traverse(t, spec):
+    """documented outcome of the type-level traversal: (('ok'|'tooshort'|'notfound'|'toolong'), depth, steps)"""
+    keys = make_keys(spec)
+    steps = []
+    while True:
+        t, ch = resolve(t)
+        if ch is None:
+            return ("ok" if keys.fin() else "toolong", len(steps), steps)
+        lk, cs = ch
+        r = keys.next(lk)
+        if r == "short":
+            return ("tooshort", len(steps), steps)
+        if r == "notfound":
+            return ("notfound", len(steps) + 1, steps)
+        n = S.lk_len(lk)
+        steps.append((r, lk[1][r] if lk[0] == "named" else None, n))
+        t = cs[0][1] if lk[0] == "homog" else cs[r][1]
